@@ -334,10 +334,17 @@ func check(c *xs.Ctx, r *xs.Result, s *hx.Step, prev *[2]*snapshot, leaf bool) b
 		r.Add("collect_outcomes", s.Op.S+":"+s.Outcome)
 	}
 	if leaf && ok {
-		followers(c, r, s)
+		// the follower differential depends on the chain only: once per distinct final ledger
+		d := s.Node.FullDigest()
+		if !leafSeen[d] {
+			leafSeen[d] = true
+			followers(c, r, s)
+		}
 	}
 	return ok
 }
+
+var leafSeen = map[string]bool{}
 
 // followers: node independence at the end of a complete history
 func followers(c *xs.Ctx, r *xs.Result, s *hx.Step) {
